@@ -337,3 +337,18 @@ S("C15", "explicit raise of a foreign class", "R1", (KA, '    raise ValueError(f
 S("C15", "value with several separators skipped without advancing", "R2", (D, "                values.append(DataSetValue.parse(line[from_pos + 1 : value_end_pos]))\n", "                try:\n                    values.append(DataSetValue.parse(line[from_pos + 1 : value_end_pos]))\n                except ValueError:\n                    continue\n"))
 N("C15", "handler written as two except clauses", (AD, "                decoded = decoder(payload)\n                self.__previous_success = index\n                return decoded\n            except (construct.ConstructError, ValueError):\n                pass\n\n        return None\n\n    def decode_message(", "                decoded = decoder(payload)\n                self.__previous_success = index\n                return decoded\n            except construct.ConstructError:\n                pass\n            except ValueError:\n                pass\n\n        return None\n\n    def decode_message("))
 N("C15", "handler broadened to Exception", (AD, "                return decoded\n            except (construct.ConstructError, ValueError):\n                pass\n\n        return None\n\n    def decode_message(", "                return decoded\n            except Exception:\n                pass\n\n        return None\n\n    def decode_message("))
+
+# ------------------------------------------------------------------------------------------------ C11
+S("C11", "unit set loses kvarh", "R1", (D, 'elif unit in ("kw", "kwh", "kvar", "kvarh"):', 'elif unit in ("kw", "kwh", "kvar"):'))
+S("C11", "* 1000 -> * 100", "R1", (D, "value = int(float(item.values[0].value) * 1000)", "value = int(float(item.values[0].value) * 100)"))
+S("C11", "clock slices [2:4] and [4:6] swapped", "R2", (D, "        int(value[2:4]),\n        int(value[4:6]),\n", "        int(value[4:6]),\n        int(value[2:4]),\n"))
+S("C11", "century 1900", "R2", (D, "        2000 + int(value[0:2]),", "        1900 + int(value[0:2]),"))
+S("C11", "manufacturer_id reads group ID", "R4", (D, 'return cast(str, self._match.group("MANID"))', 'return cast(str, self._match.group("ID"))'))
+S("C11", "units compared case-sensitively", "R1", (D, "unit = item.values[0].unit.lower() if item.values[0].unit else None", "unit = item.values[0].unit if item.values[0].unit else None"))
+S("C11", "float units rounded", "R1", (D, "                value = float(item.values[0].value)\n", "                value = round(float(item.values[0].value), 1)\n"))
+S("C11", "multi-valued data sets decoded too", "R3", (D, "        if len(item.values) == 1:\n            obis = Obis.from_string(item.address)", "        if len(item.values) >= 1:\n            obis = Obis.from_string(item.address)"))
+S("C11", "split on CRLF only", "R6", (D, "lines = [line for line in data.splitlines() if len(line.strip())]", 'lines = [line for line in data.split("\\r\\n") if len(line.strip())]'))
+S("C11", "numeric guard clears the unit", "R1", (D, "            if unit in (\"v\", \"a\", \"var\", \"varh\"):\n                value = float(item.values[0].value)", "            if unit is not None and \".\" not in item.values[0].value:\n                unit = None\n            if unit in (\"v\", \"a\", \"var\", \"varh\"):\n                value = float(item.values[0].value)"))
+S("C11", "content decoder parses a different payload", "R5", (D, "    return parse_p1_readout_content(readout.payload)", "    return parse_p1_readout_content(readout.as_bytes)"))
+S("C11", "value and unit swapped", "R6", (D, "            return DataSetValue(pair[0], pair[1])", "            return DataSetValue(pair[1], pair[0])"))
+N("C11", "unit folded with casefold-like temp", (D, "unit = item.values[0].unit.lower() if item.values[0].unit else None", "raw_unit = item.values[0].unit\n            unit = raw_unit.lower() if raw_unit else None"))
